@@ -209,16 +209,20 @@ theorem nf_step (s s' : LS) (e : Ev) (hs : s.step e = some s') (t : Nat) (ht : t
       · rename_i hpc
         split at hs
         · cases hs
-          exact nf_set s _ t h s.insts (fun _ => rfl) i it _ hit rfl (by simp [win]) (fun h => h)
+          exact nf_set s _ t h s.insts (fun _ => rfl) i it _ hit rfl (by simp [win])
+            (rs_upd_keep _ _ _ (by intro h; exact h) t)
         · split at hs
           · cases hs
             exact nf_set s _ t h s.insts (fun _ => rfl) i it _ hit rfl (by simp [win]) (fun h => h)
           · split at hs
             · cases hs
-              exact nf_set s _ t h s.insts (fun _ => rfl) i it _ hit rfl (by simp [win])
-                (rs_upd_keep _ _ _ (by intro h; exact h) t)
-            · cases hs
               exact nf_set s _ t h s.insts (fun _ => rfl) i it _ hit rfl (by simp [win]) (fun h => h)
+            · split at hs
+              · cases hs
+                exact nf_set s _ t h s.insts (fun _ => rfl) i it _ hit rfl (by simp [win])
+                  (rs_upd_keep _ _ _ (by intro h; exact h) t)
+              · cases hs
+                exact nf_set s _ t h s.insts (fun _ => rfl) i it _ hit rfl (by simp [win]) (fun h => h)
       · cases hs
     · cases hs
   | next i =>
@@ -1264,25 +1268,30 @@ theorem fi_step_inst (s s' : LS) (e : Ev) (hI : Inv s) (h : FI s) (ht : s.tame e
       · rename_i hpc
         have hlate : NoFuture s' it.rid := hnf _ (hR.1 it hmem) (h.w1 it hmem (Or.inl hpc))
         split at hs
-        · cases hs
-          refine fi_setI s _ h hR s.insts i it _ rfl rfl rfl rfl rfl hmem rfl (fun x hx => Or.inl hx) hnf
-            (fun _ => hlate) ?_
-          intro f hf
-          have hf : (s.req it.rid).flushreq = some f := hf
-          obtain ⟨t, h1, h2⟩ := h.q3 it.rid f hf
-          refine ⟨t, h1, hnf t (h.lkw f t h1).2.2.1 ?_⟩
-          rcases h2 with h2 | h2
-          · rw [← h2]; exact h.w1 it hmem (Or.inl hpc)
-          · exact h.z it.rid t h2 (Or.inr ⟨it, hmem, rfl⟩)
-        · rename_i m hprev
+        · rename_i od hod
+          exfalso
+          simp [LS.tame, hit, hod] at ht
+        · rename_i hod
           split at hs
           · cases hs
             refine fi_setI s _ h hR s.insts i it _ rfl rfl rfl rfl rfl hmem rfl (fun x hx => Or.inl hx) hnf
               (fun _ => hlate) ?_
-            intro f hf; cases hf
-          · rename_i fr hfr
-            exfalso
-            simp [LS.tame, hit, hprev, hfr] at ht
+            intro f hf
+            have hf : (s.req it.rid).flushreq = some f := hf
+            obtain ⟨t, h1, h2⟩ := h.q3 it.rid f hf
+            refine ⟨t, h1, hnf t (h.lkw f t h1).2.2.1 ?_⟩
+            rcases h2 with h2 | h2
+            · rw [← h2]; exact h.w1 it hmem (Or.inl hpc)
+            · exact h.z it.rid t h2 (Or.inr ⟨it, hmem, rfl⟩)
+          · rename_i m hprev
+            split at hs
+            · cases hs
+              refine fi_setI s _ h hR s.insts i it _ rfl rfl rfl rfl rfl hmem rfl (fun x hx => Or.inl hx) hnf
+                (fun _ => hlate) ?_
+              intro f hf; cases hf
+            · rename_i fr hfr
+              exfalso
+              simp [LS.tame, hit, hprev, hfr, hod] at ht
       · cases hs
     · cases hs
   | next i =>
